@@ -1615,6 +1615,8 @@ class Executor:
 
     def ex_Set(self, e, frame, hint=None, want_seq=False):
         items = [self.eval(x, frame) for x in e.elts]
+        if any(isinstance(i, VConst) for i in items):
+            raise Unsupported('set literal of python-level constants (declare them in the contract globals)')
         v = SetS(items[0].sort).empty()
         for x in items:
             v = v.add(x)
